@@ -93,6 +93,44 @@ var verifEnvCalls int64
 func VerifEnvCalls() int64 { return verifEnvCalls }
 """)
     repl[src] = dst
+    # syscall/zsyscall_linux_amd64.go + exec_unix.go: a counter on the system calls through which a Go program reaches files,
+    # the network and other processes (openat, fstatat, faccessat, readlinkat, socket, connect, fork/exec) — I/O freedom
+    # becomes checkable on EVERY explored state, not only under strace
+    src = os.path.join(gr, "src/syscall/zsyscall_linux_amd64.go")
+    if os.path.exists(src):
+        dst = os.path.join(out, "std/syscall/zsyscall_linux_amd64.go")
+        try:
+            patch(src, [
+                ("func openat(dirfd int, path string, flags int, mode uint32) (fd int, err error) {\n", "func openat(dirfd int, path string, flags int, mode uint32) (fd int, err error) {\n\tverifIOCalls++\n", 1),
+                ("func fstatat(fd int, path string, stat *Stat_t, flags int) (err error) {\n", "func fstatat(fd int, path string, stat *Stat_t, flags int) (err error) {\n\tverifIOCalls++\n", 1),
+                ("func faccessat(dirfd int, path string, mode uint32) (err error) {\n", "func faccessat(dirfd int, path string, mode uint32) (err error) {\n\tverifIOCalls++\n", 1),
+                ("func readlinkat(dirfd int, path string, buf []byte) (n int, err error) {\n", "func readlinkat(dirfd int, path string, buf []byte) (n int, err error) {\n\tverifIOCalls++\n", 1),
+                ("func socket(domain int, typ int, proto int) (fd int, err error) {\n", "func socket(domain int, typ int, proto int) (fd int, err error) {\n\tverifIOCalls++\n", 1),
+                ("func connect(s int, addr unsafe.Pointer, addrlen _Socklen) (err error) {\n", "func connect(s int, addr unsafe.Pointer, addrlen _Socklen) (err error) {\n\tverifIOCalls++\n", 1),
+            ], dst)
+            with open(dst, "a") as f:
+                f.write("""
+// ---- verif seam (overlay only) ----
+var verifIOCalls int64
+
+// VerifIOCalls counts file / network system calls issued through package syscall.
+func VerifIOCalls() int64 { return verifIOCalls }
+
+// VerifIOSeam reports that the counter is wired in.
+const VerifIOSeam = true
+""")
+            repl[src] = dst
+            src2 = os.path.join(gr, "src/syscall/exec_unix.go")
+            dst2 = os.path.join(out, "std/syscall/exec_unix.go")
+            patch(src2, [("func forkExec(argv0 string, argv []string, attr *ProcAttr) (pid int, err error) {\n", "func forkExec(argv0 string, argv []string, attr *ProcAttr) (pid int, err error) {\n\tverifIOCalls++\n", 1)], dst2)
+            repl[src2] = dst2
+        except AssertionError as e:
+            sys.stderr.write("I/O seam not installed (%s)\n" % e)
+            # fall back: a stub so that the harness builds; the strace pass remains the deciding step
+            stub = os.path.join(out, "std/syscall/verif_io_stub.go")
+            os.makedirs(os.path.dirname(stub), exist_ok=True)
+            open(stub, "w").write("package syscall\n\nfunc VerifIOCalls() int64 { return 0 }\n\nconst VerifIOSeam = false\n")
+            repl[os.path.join(gr, "src/syscall/verif_io_stub.go")] = stub
     for extra in sys.argv[2:]:
         repl.update(json.load(open(extra))["Replace"])
     path = os.path.join(out, "overlay.json")
